@@ -1,4 +1,6 @@
 import MgProof.C11.LemmasAL
+import MgProof.C11.LemmasStack
+import MgProof.C11.LemmasLLOps
 /-!
 # C11 — property theorems (sequence containers and pointer slot)
 
@@ -173,4 +175,269 @@ example : ∃ s, init 1 = some s ∧
   refine ⟨_, rfl, by decide, by decide⟩
 
 end AL
+
+/-! ## Stack -/
+namespace Stk
+open MgModel.C11.Stk
+
+/-- **Stack, one call**: every call succeeds and answers as the reference sequence
+(last element = top); the final state represents the reference result. -/
+theorem step_refines {s : Stack} {l : List Val} (inv : Inv s l) (hsmall : l.length < 2 ^ 30)
+    (op : Op) :
+    ∃ s', step s op = .ok (s', (specStep l op).2) ∧ Inv s' (specStep l op).1 ∧
+      (specStep l op).1.length ≤ l.length + 1 := by
+  cases op with
+  | push v =>
+    obtain ⟨s', h, inv'⟩ := push_refines inv hsmall v
+    exact ⟨s', by simp [step, specStep, h, bind, Except.bind, pure, Except.pure], inv',
+      by simp [specStep, specPush]⟩
+  | top =>
+    exact ⟨s, by simp [step, specStep, top_refines inv, bind, Except.bind, pure, Except.pure], inv,
+      by simp [specStep]⟩
+  | pop fr =>
+    obtain ⟨s', h, inv'⟩ := pop_refines inv fr
+    exact ⟨s', by simp [step, specStep, h, bind, Except.bind, pure, Except.pure], inv',
+      by simp [specStep, specPop]; omega⟩
+  | clear fr =>
+    obtain ⟨s', h, inv'⟩ := clear_refines inv fr
+    exact ⟨s', by simp [step, specStep, h, bind, Except.bind, pure, Except.pure], inv',
+      by simp [specStep, specClear]⟩
+  | ensure c =>
+    obtain ⟨s', h, inv', _⟩ := ensureCapacity_inv inv c
+    exact ⟨s', by simp [step, specStep, h, bind, Except.bind, pure, Except.pure], inv',
+      by simp [specStep]⟩
+  | dump =>
+    exact ⟨s, by simp [step, specStep, contents_refines inv, inv.size, bind, Except.bind, pure,
+      Except.pure], inv, by simp [specStep]⟩
+
+/-- **Stack, every history** (growth included). -/
+theorem run_refines (ops : List Op) : ∀ {s : Stack} {l : List Val}, Inv s l →
+    l.length + ops.length < 2 ^ 30 →
+    ∃ s', run s ops = .ok (s', (specRun l ops).2) ∧ Inv s' (specRun l ops).1 := by
+  induction ops with
+  | nil => intro s l inv _; exact ⟨s, rfl, inv⟩
+  | cons op ops ih =>
+    intro s l inv hsmall
+    simp only [List.length_cons] at hsmall
+    obtain ⟨s1, h1, inv1, hlen⟩ := step_refines inv (by omega) op
+    obtain ⟨s2, h2, inv2⟩ := ih inv1 (by omega)
+    exact ⟨s2, by simp [run, specRun, h1, h2, bind, Except.bind, pure, Except.pure], by
+      simpa [specRun] using inv2⟩
+
+/-- **C11, stack.** A stack created by `muggle_stack_init` with any capacity behaves
+as the empty reference sequence under every history of push / top / pop / clear /
+ensure_capacity, with and without the free callback. -/
+theorem stack_behaves_as_sequence {c : Nat} {s : Stack} (h : init c = some s) (ops : List Op)
+    (hsmall : ops.length < 2 ^ 30) :
+    ∃ s', run s ops = .ok (s', (specRun [] ops).2) ∧ Inv s' (specRun [] ops).1 :=
+  run_refines ops (inv_init h) (by simpa using hsmall)
+
+example : ∃ s, init 1 = some s ∧
+    (run s [.push 4, .push 5, .push 0, .top, .pop true, .pop true, .dump]).toOption.map
+      (fun p => (p.2, p.1.capacity))
+      = some ([.pos (some 0), .pos (some 1), .pos (some 2), .cell (some (2, 0)), .freed [],
+          .freed [5], .contents 1 [4]], 4) := ⟨_, rfl, by decide⟩
+
+end Stk
+
+/-! ## Linked list -/
+namespace LL
+open MgModel.C11.LL
+
+theorem handleOk_iff {l : Spec} {n : Option Ref} :
+    handleOk l n = true ↔ ∀ r, n = some r → r ∈ ids l := by
+  cases n with
+  | none => simp [handleOk]
+  | some r => simp [handleOk, ids]
+
+theorem length_insBefore_le (n : Ref) (x : Ref × Val) (l : Spec) :
+    (insBefore n x l).length ≤ l.length + 1 := by
+  induction l with
+  | nil => simp [insBefore]
+  | cons a l ih => simp only [insBefore]; split <;> simp <;> omega
+
+theorem length_insAfter_le (n : Ref) (x : Ref × Val) (l : Spec) :
+    (insAfter n x l).length ≤ l.length + 1 := by
+  induction l with
+  | nil => simp [insAfter]
+  | cons a l ih => simp only [insAfter]; split <;> simp <;> omega
+
+/-- **Linked list, one call.** Whenever the reference side is defined (every handle
+passed is an element of the sequence), the call succeeds on the heap model — no
+NULL / freed-node dereference — and returns the reference answer; the new handle
+of insert/append is the next fresh node. -/
+theorem step_refines {s : LL} {l : Spec} {k : Nat} (inv : Inv s l) (hk : s.mem.cells.length = k)
+    (hsmall : l.length + 1 < 2 ^ 64) (op : Op) {l' : Spec} {k' : Nat} {r : Res}
+    (h : specStep l k op = some (l', k', r)) :
+    ∃ s', step s op = .ok (s', r) ∧ Inv s' l' ∧ s'.mem.cells.length = k' ∧
+      l'.length ≤ l.length + 1 := by
+  subst hk
+  cases op with
+  | insert n v =>
+    simp only [specStep] at h
+    split at h
+    · rename_i hok
+      simp only [Option.some.injEq, Prod.mk.injEq] at h
+      obtain ⟨h1, h2, h3⟩ := h
+      obtain ⟨s', hs, _, inv', hlen⟩ := insert_refines inv n (handleOk_iff.mp hok) v hsmall
+      subst h1 h2 h3
+      refine ⟨s', by simp [step, hs, bind, Except.bind, pure, Except.pure], inv', hlen, ?_⟩
+      cases n with
+      | none => simp [specInsert]
+      | some n => exact length_insBefore_le _ _ _
+    · simp at h
+  | append n v =>
+    simp only [specStep] at h
+    split at h
+    · rename_i hok
+      simp only [Option.some.injEq, Prod.mk.injEq] at h
+      obtain ⟨h1, h2, h3⟩ := h
+      obtain ⟨s', hs, _, inv', hlen⟩ := append_refines inv n (handleOk_iff.mp hok) v hsmall
+      subst h1 h2 h3
+      refine ⟨s', by simp [step, hs, bind, Except.bind, pure, Except.pure], inv', hlen, ?_⟩
+      cases n with
+      | none => simp [specAppend]
+      | some n => exact length_insAfter_le _ _ _
+    · simp at h
+  | remove n fr =>
+    simp only [specStep] at h
+    split at h
+    · rename_i hok
+      simp only [Option.some.injEq, Prod.mk.injEq] at h
+      obtain ⟨h1, h2, h3⟩ := h
+      obtain ⟨s', hs, inv', hlen⟩ := remove_refines inv (handleOk_iff.mp hok n rfl) fr
+      subst h1 h2 h3
+      refine ⟨s', by simp [step, hs, bind, Except.bind, pure, Except.pure], inv', hlen, ?_⟩
+      simp only [specRemove]
+      exact Nat.le_succ_of_le (List.length_filter_le _ _)
+    · simp at h
+  | next n =>
+    simp only [specStep] at h
+    split at h
+    · rename_i hok
+      simp only [Option.some.injEq, Prod.mk.injEq] at h
+      obtain ⟨h1, h2, h3⟩ := h
+      subst h1 h2 h3
+      exact ⟨s, by simp [step, next_refines inv (handleOk_iff.mp hok n rfl), bind, Except.bind, pure,
+        Except.pure], inv, rfl, Nat.le_succ _⟩
+    · simp at h
+  | prev n =>
+    simp only [specStep] at h
+    split at h
+    · rename_i hok
+      simp only [Option.some.injEq, Prod.mk.injEq] at h
+      obtain ⟨h1, h2, h3⟩ := h
+      subst h1 h2 h3
+      exact ⟨s, by simp [step, prev_refines inv (handleOk_iff.mp hok n rfl), bind, Except.bind, pure,
+        Except.pure], inv, rfl, Nat.le_succ _⟩
+    · simp at h
+  | first =>
+    simp only [specStep, Option.some.injEq, Prod.mk.injEq] at h
+    obtain ⟨h1, h2, h3⟩ := h
+    subst h1 h2 h3
+    exact ⟨s, by simp [step, first_refines inv, pure, Except.pure], inv, rfl, Nat.le_succ _⟩
+  | last =>
+    simp only [specStep, Option.some.injEq, Prod.mk.injEq] at h
+    obtain ⟨h1, h2, h3⟩ := h
+    subst h1 h2 h3
+    exact ⟨s, by simp [step, last_refines inv, pure, Except.pure], inv, rfl, Nat.le_succ _⟩
+  | find n v =>
+    simp only [specStep] at h
+    split at h
+    · rename_i hok
+      simp only [Option.some.injEq, Prod.mk.injEq] at h
+      obtain ⟨h1, h2, h3⟩ := h
+      subst h1 h2 h3
+      exact ⟨s, by simp [step, find_refines inv n (handleOk_iff.mp hok) v, bind, Except.bind, pure,
+        Except.pure], inv, rfl, Nat.le_succ _⟩
+    · simp at h
+  | clear fr =>
+    simp only [specStep, Option.some.injEq, Prod.mk.injEq] at h
+    obtain ⟨h1, h2, h3⟩ := h
+    obtain ⟨s', hs, inv', hlen⟩ := clear_refines inv fr
+    subst h1 h2 h3
+    exact ⟨s', by simp [step, hs, bind, Except.bind, pure, Except.pure], inv', hlen,
+      by simp [specClear]⟩
+  | dump =>
+    simp only [specStep, Option.some.injEq, Prod.mk.injEq] at h
+    obtain ⟨h1, h2, h3⟩ := h
+    subst h1 h2 h3
+    obtain ⟨hf, hb⟩ := toList_refines inv
+    exact ⟨s, by simp [step, hf, hb, inv.size, ids, bind, Except.bind, pure, Except.pure], inv, rfl,
+      Nat.le_succ _⟩
+
+/-- **Linked list, every history.** For every operation list on which the
+reference side is defined (only handles of current elements are passed), the heap
+model runs without error and returns exactly the reference answers: handles,
+neighbours, search results, callback data, and both traversals. -/
+theorem run_refines (ops : List Op) : ∀ {s : LL} {l : Spec} {k : Nat} {l' : Spec} {k' : Nat}
+    {rs : List Res}, Inv s l → s.mem.cells.length = k → l.length + ops.length < 2 ^ 64 →
+    specRun l k ops = some (l', k', rs) →
+    ∃ s', run s ops = .ok (s', rs) ∧ Inv s' l' ∧ s'.mem.cells.length = k' := by
+  induction ops with
+  | nil =>
+    intro s l k l' k' rs inv hk _ h
+    simp only [specRun, Option.some.injEq, Prod.mk.injEq] at h
+    obtain ⟨h1, h2, h3⟩ := h
+    subst h1 h2 h3
+    exact ⟨s, rfl, inv, hk⟩
+  | cons op ops ih =>
+    intro s l k l' k' rs inv hk hsmall h
+    simp only [List.length_cons] at hsmall
+    simp only [specRun] at h
+    cases h1 : specStep l k op with
+    | none => rw [h1] at h; simp at h
+    | some p1 =>
+      obtain ⟨l1, k1, r⟩ := p1
+      rw [h1] at h
+      simp only at h
+      cases h2 : specRun l1 k1 ops with
+      | none => rw [h2] at h; simp at h
+      | some p2 =>
+        obtain ⟨l2, k2, rs2⟩ := p2
+        rw [h2] at h
+        simp only [Option.some.injEq, Prod.mk.injEq] at h
+        obtain ⟨e1, e2, e3⟩ := h
+        subst e1 e2 e3
+        obtain ⟨s1, hs1, inv1, hk1, hlen⟩ := step_refines inv hk (by omega) op h1
+        obtain ⟨s2, hs2, inv2, hk2⟩ := ih inv1 hk1 (by omega) h2
+        exact ⟨s2, by simp [run, hs1, hs2, bind, Except.bind, pure, Except.pure], inv2, hk2⟩
+
+theorem inv_init {c : Nat} {s : LL} (h : init c = some s) : Inv s [] ∧ s.mem.cells.length = 0 := by
+  have hm : MInv emptyMem [] := by
+    refine ⟨⟨by simp [path, ids], ?_⟩, by simp⟩
+    simp [path, ids, Link.Links, nxt, prv, DMem.get, emptyMem]
+  unfold init at h
+  split at h
+  · split at h
+    · simp at h
+    · injection h with h; subst h; exact ⟨⟨hm, rfl, by simp⟩, rfl⟩
+  · injection h with h; subst h; exact ⟨⟨hm, rfl, by simp⟩, rfl⟩
+
+/-- **C11, linked list.** A list created by `muggle_linked_list_init` — with a node
+pool (`capacity > 0`) or without (`capacity = 0`) — behaves as the empty reference
+sequence under every history of insert-before / append-after / remove / next /
+prev / first / last / find / clear / traversal that only passes handles of current
+elements. -/
+theorem linked_list_behaves_as_sequence {c : Nat} {s : LL} (h : init c = some s) (ops : List Op)
+    (hsmall : ops.length < 2 ^ 64) {l' : Spec} {k' : Nat} {rs : List Res}
+    (hspec : specRun [] 0 ops = some (l', k', rs)) :
+    ∃ s', run s ops = .ok (s', rs) ∧ Inv s' l' := by
+  obtain ⟨inv, hk⟩ := inv_init h
+  obtain ⟨s', hr, inv', _⟩ := run_refines ops inv hk (by simpa using hsmall) hspec
+  exact ⟨s', hr, inv'⟩
+
+example : ∃ s, init 2 = some s ∧
+    specRun [] 0 [.insert none 4, .append (some (.node 0)) 5, .insert (some (.node 1)) 6,
+      .remove (.node 0) true, .next (.node 2), .dump]
+    = some ([(.node 2, 6), (.node 1, 5)], 3,
+        [.node (.node 0), .node (.node 1), .node (.node 2), .removed (some (.node 2)) [4],
+         .optNode (some (.node 1)), .contents 2 [(.node 2, 6), (.node 1, 5)] [.node 1, .node 2]]) ∧
+    (run s [.insert none 4, .append (some (.node 0)) 5, .insert (some (.node 1)) 6,
+      .remove (.node 0) true, .next (.node 2), .dump]).toOption.map (·.2)
+    = some [.node (.node 0), .node (.node 1), .node (.node 2), .removed (some (.node 2)) [4],
+         .optNode (some (.node 1)), .contents 2 [(.node 2, 6), (.node 1, 5)] [.node 1, .node 2]] :=
+  ⟨_, rfl, by decide, by decide⟩
+
+end LL
 end MgProof.C11
